@@ -479,6 +479,106 @@ FLAT_SHAPES = {
 
 ANON = "template A() { signal input in; signal output out; out <== in; }\n"
 
+SUGARS = {
+    "tuple2": "(0, 1)",
+    "tuple-nested": "(a, (a, 1))",
+    "tuple-vars": "(x, a)",
+    "anon1": "A()(a)",                       # one output: stands for a value
+    "anon2": "B()(a)",                       # two outputs: stands for a tuple
+    "anon-named": "A()(in <== a)",
+    "anon-missing": "Missing()(a)",
+    "anon-parallel": "parallel A()(a)",
+    "anon-nested": "A()(A()(a))",
+}
+# %s is the hole. t: template body, f: function body (x, a and the array ar are in scope in both)
+SUGAR_HOLES = {
+    "read-index": ("x = ar[%s];", "tf"),
+    "read-index-operand": ("x = 1 + ar[%s];", "tf"),
+    "read-index-nested": ("x = ar[ar[%s]];", "tf"),
+    "read-index-2d": ("x = m2[0][%s];", "tf"),
+    "read-index-signal": ("b2 <== sa[%s];", "t"),
+    "read-index-signal-operand": ("b2 <== 1 + sa[%s] * 2;", "t"),
+    "read-index-component": ("b2 <== c.out + cs[%s].out;", "t"),
+    "read-index-component-signal": ("b2 <== d.in[%s];", "t"),
+    "read-index-in-condition": ("if (ar[%s] == 0) { x = 1; }", "tf"),
+    "read-index-in-assert": ("assert(ar[%s] == 0);", "tf"),
+    "read-index-in-log": ("log(\"v\", ar[%s]);", "tf"),
+    "read-index-in-return": ("return ar[%s];", "f"),
+    "read-index-in-call": ("x = g(ar[%s]);", "tf"),
+    "read-index-in-dimension": ("var q[ar[%s]];", "tf"),
+    "read-index-in-constraint": ("sa[0] === sa[%s];", "t"),
+    "read-index-in-lhs-index": ("ar[ar[%s]] = 1;", "tf"),
+    "read-index-in-ternary": ("x = a ? ar[%s] : 0;", "tf"),
+    "read-index-in-array": ("var w[2] = [ar[%s], 1];", "tf"),
+    "read-index-in-tuple": ("(x, _) = (ar[%s], 1);", "t"),
+    "read-index-in-anon-input": ("b2 <== A()(sa[%s]);", "t"),
+    "read-index-in-anon-param": ("b2 <== P(ar[%s])(a);", "t"),
+    "read-index-compound": ("x += ar[%s];", "tf"),
+    "lhs-index": ("ar[%s] = 1;", "tf"),
+    "lhs-index-signal": ("so[%s] <== a;", "t"),
+    "lhs-index-increment": ("ar[%s]++;", "tf"),
+    "call-argument": ("x = g(%s);", "tf"),
+    "call-argument-2": ("x = h(1, %s);", "tf"),
+    "call-argument-nested": ("x = g(g(%s));", "tf"),
+    "template-argument": ("component k = P(%s);", "t"),
+    "anon-param": ("b2 <== P(%s)(a);", "t"),
+    "anon-input": ("b2 <== A()(%s);", "t"),
+    "dimension-var": ("var q[%s];", "tf"),
+    "dimension-var-2": ("var q[2][%s];", "tf"),
+    "dimension-signal": ("signal q[%s];", "t"),
+    "dimension-component": ("component q[%s];", "t"),
+    "condition-if": ("if (%s) { x = 1; }", "tf"),
+    "condition-if-else": ("if (%s) { x = 1; } else { x = 2; }", "tf"),
+    "condition-if-operand": ("if (%s == 0) { x = 1; }", "tf"),
+    "condition-while": ("while (%s) { x = x + 1; }", "tf"),
+    "condition-for": ("for (var i = 0; %s; i++) { x = x + i; }", "tf"),
+    "condition-for-operand": ("for (var i = 0; i < %s; i++) { x = x + i; }", "tf"),
+    "for-init": ("for (var i = %s; i < 2; i++) { x = x + i; }", "tf"),
+    "for-step": ("for (var i = 0; i < 2; i += %s) { x = x + i; }", "tf"),
+    "ternary-condition": ("x = %s ? 1 : 2;", "tf"),
+    "ternary-branch": ("x = a ? %s : 2;", "tf"),
+    "infix-operand": ("x = 1 + %s;", "tf"),
+    "prefix-operand": ("x = - %s;", "tf"),
+    "inline-array": ("var w[2] = [%s, 1];", "tf"),
+    "return": ("return %s;", "f"),
+    "assert": ("assert(%s);", "tf"),
+    "log": ("log(%s);", "tf"),
+    "log-operand": ("log(\"v\", 1 + %s);", "tf"),
+    "constraint-lhs": ("%s === a;", "t"),
+    "constraint-rhs": ("a === %s;", "t"),
+    "var-init": ("var q = %s;", "tf"),
+    "assignment": ("x = %s;", "tf"),
+    "signal-assignment": ("b2 <== %s;", "t"),
+    "signal-assignment-unsafe": ("b2 <-- %s;", "t"),
+    "compound-assignment": ("x += %s;", "tf"),
+    "tuple-rhs-element": ("(x, _) = (%s, 1);", "t"),
+    "statement": ("%s;", "tf"),
+}
+SUGAR_PRELUDE = ("template A() { signal input in; signal output out; out <== in; }\n"
+                 "template B() { signal input in; signal output o1; signal output o2; o1 <== in; o2 <== in; }\n"
+                 "template P(n) { signal input in; signal output out; out <== in + n; }\n"
+                 "template D() { signal input in[2]; signal output out; out <== in[0] + in[1]; }\n"
+                 "function g(u) { return u + 1; }\nfunction h(u, v) { return u + v; }\n")
+
+
+def sugar_matrix():
+    """[(kind, source)]: each sugar form in each hole, in a template and in a function."""
+    out = []
+    for hname, (hole, where) in SUGAR_HOLES.items():
+        for sname, sugar in SUGARS.items():
+            stmt = hole % sugar
+            if "t" in where:
+                body = ("signal input sa[2]; signal output so[2]; signal output b2; var ar[2] = [0, 1]; var m2[2][2]; "
+                        "component c = A(); c.in <== a; component cs[2]; cs[0] = A(); cs[1] = A(); cs[0].in <== a; cs[1].in <== a; "
+                        "component d = D(); d.in[0] <== a; d.in[1] <== a; " + stmt + " so[0] <== a; so[1] <== a;")
+                if "b2 <" not in stmt:
+                    body += " b2 <== a;"
+                out.append(("sugar:%s:%s:template" % (hname, sname), T(body, SUGAR_PRELUDE)))
+            if "f" in where:
+                body = "var ar[2] = [0, 1]; var m2[2][2]; " + stmt
+                out.append(("sugar:%s:%s:function" % (hname, sname), F(body, SUGAR_PRELUDE)))
+    return out
+
 NEST_SHAPES = {
     "parentheses": lambda n: F("x = " + "(" * n + "a" + ")" * n + ";"),
     "parenthesised-sums": lambda n: F("x = " + "(a+" * n + "a" + ")" * n + ";"),
@@ -651,6 +751,12 @@ def adversarial_cases(ctx, stats, thorough):
     add("anon-forms", T("signal s; s <== A()(in <== a); s <== A()(in <-- a); A()(a); A()(); A(1)(a, a);", ANON))
     add("anon-forms", T("for (var i = 0; i < 2; i++) { A()(a); }", ANON))
     add("anon-forms", "function g() { A()(1); return A()(2); }\n" + ANON)
+    # every kind of sugar in every expression position (the desugarer must answer each with an error
+    # report or remove it; whatever it lets through meets the catch-all panic!s of IR lifting).
+    # Added after the seeded change C01-variable-index-not-searched: read indices, call arguments,
+    # dimensions and conditions are exercised deliberately, in templates and in functions.
+    for kind, src in sugar_matrix():
+        add(kind, src)
     add("component-forms", T("component c = A(); c.in <== a; component d[2]; d[0] = A(); d[1] = parallel A(); d[0].in <== c.out; d[1].in <== d[0].out;", ANON))
     # files, options
     good = T("x = 1;").encode()
@@ -975,6 +1081,19 @@ def run(ctx, proofs):
             if k:
                 ctx.known_finding(k["id"], k["what"])
                 known_cases[k["id"]] += 1
+
+    # the theorems cited by the panic map must resolve in Coq (gen/PanicCites<Cnn>.v: one `Check` each)
+    unresolved, unchecked, cites_n = panicsites.cites_check()
+    for prop, out in unchecked:
+        common.log("panic-site inventory: citations of %s not re-checked by Coq, a file of %s does not build now: %s"
+                   % (prop, prop, " ".join(out.split())[-300:]))
+    if unresolved:
+        common.log("panic-site inventory: a cited theorem does not resolve:\n" + unresolved[0][1][-600:])
+        if not ctx.violations:
+            ctx.violation("a theorem of %s cited by coq/PANIC_MAP.json does not resolve in Coq (coq/gen/PanicCites%s.v "
+                          "does not compile)" % (unresolved[0][0], unresolved[0][0]),
+                          {"broken": "gen/PanicCites%s.v" % unresolved[0][0], "coq_output": unresolved[0][1],
+                           "inventory_diff": panicsites.unmapped_summary()}, no_input=True)
 
     if not ctx.violations and proofs["failures"]:
         ctx.violation("proof obligations of C01 no longer check: " + "; ".join(proofs["failures"])[:700],
